@@ -229,9 +229,21 @@ def perform(U, action, args, state):
             # EAOHistory.OutputDefined: the tables are specified only while every asset still refers to the problem's grid
             if state and 'agrid' in state and any(g != state.get('pgrid') for g in state['agrid'].values()):
                 return ('result_only', round(float(res.value), 7), tuple(np.round(np.asarray(res.x, float), 6)))
+            def tables(o):
+                pr = o.get('prices')
+                if pr is not None:      # (the second report is asked to attach the input prices as well: only the nodal-price columns are compared)
+                    pr = pr[[c for c in pr.columns if str(c).startswith('nodal price')]]
+                    if len(pr.columns) == 0:
+                        pr = None
+                return (tuple(map(tuple, np.round(o['dispatch'].values.astype(float), 6))), tuple(map(tuple, np.round(o['DCF'].values.astype(float), 6))),
+                        tuple(map(tuple, np.nan_to_num(np.round(pr.values.astype(float), 6), nan=-12345.0))) if pr is not None else ())
             out = eao.io.extract_output(U.portfolio, op, res)
-            return ('result', round(float(res.value), 7), tuple(np.round(np.asarray(res.x, float), 6)),
-                    tuple(map(tuple, np.round(out['dispatch'].values.astype(float), 6))), tuple(map(tuple, np.round(out['DCF'].values.astype(float), 6))))
+            t1 = tables(out)
+            # reporting is a function of (portfolio, problem, result): asking again for the same result must give the same tables
+            t2 = tables(eao.io.extract_output(U.portfolio, op, res, U.prices[U.last[2]][U.last[1]]))
+            if t1 != t2:
+                return ('report_changes_when_repeated', [k for k, (a, b) in zip(('dispatch', 'DCF', 'prices'), zip(t1, t2)) if a != b])
+            return ('result', round(float(res.value), 7), tuple(np.round(np.asarray(res.x, float), 6))) + t1[:2]
         if action == 'SaveLoad':
             a, = args
             s = eao.serialization.to_json(U.assets[a])
